@@ -1,0 +1,117 @@
+//! `macro_rules!` hands an `$e:expr` or `$t:ty` fragment over inside invisible delimiters, which keep it
+//! together: `$e * 2` with `$e = 1 + 1` is 4. What `syn` has parsed and `quote` prints again is a new group,
+//! and rustc does not honour the invisible delimiters of those: the same tokens read `1 + 1 * 2`.
+//! Where that makes a difference the fragment is given parentheses.
+
+use syn::visit_mut::{self, VisitMut};
+
+pub struct FragmentsToParens;
+
+impl VisitMut for FragmentsToParens {
+    fn visit_expr_mut(&mut self, expr: &mut syn::Expr) {
+        visit_mut::visit_expr_mut(self, expr);
+
+        match expr {
+            syn::Expr::Binary(binary) => {
+                operand(&mut binary.left, false);
+                operand(&mut binary.right, false);
+            }
+            syn::Expr::Unary(unary) => operand(&mut unary.expr, false),
+            syn::Expr::Reference(reference) => operand(&mut reference.expr, false),
+            syn::Expr::Cast(cast) => operand(&mut cast.expr, false),
+            syn::Expr::Try(expr_try) => operand(&mut expr_try.expr, false),
+            syn::Expr::Await(expr_await) => operand(&mut expr_await.base, false),
+            syn::Expr::Field(field) => operand(&mut field.base, false),
+            syn::Expr::Index(index) => operand(&mut index.expr, false),
+            syn::Expr::MethodCall(method_call) => operand(&mut method_call.receiver, false),
+            // (`$f(x)` with `$f = self.f` calls the field; `self.f(x)` would be a method call)
+            syn::Expr::Call(call) => operand(&mut call.func, true),
+            syn::Expr::Range(range) => {
+                if let Some(start) = &mut range.start {
+                    operand(start, false);
+                }
+                if let Some(end) = &mut range.end {
+                    operand(end, false);
+                }
+            }
+            // (a struct literal is not allowed where a block follows)
+            syn::Expr::If(expr_if) => struct_literal(&mut expr_if.cond),
+            syn::Expr::While(expr_while) => struct_literal(&mut expr_while.cond),
+            syn::Expr::Match(expr_match) => struct_literal(&mut expr_match.expr),
+            syn::Expr::ForLoop(for_loop) => struct_literal(&mut for_loop.expr),
+            _ => {}
+        }
+    }
+
+    fn visit_type_mut(&mut self, ty: &mut syn::Type) {
+        visit_mut::visit_type_mut(self, ty);
+
+        match ty {
+            syn::Type::Reference(reference) => pointee(&mut reference.elem),
+            syn::Type::Ptr(ptr) => pointee(&mut ptr.elem),
+            _ => {}
+        }
+    }
+}
+
+fn to_paren(expr: &mut syn::Expr) {
+    if let syn::Expr::Group(group) = expr {
+        *expr = syn::Expr::Paren(syn::ExprParen {
+            attrs: std::mem::take(&mut group.attrs),
+            paren_token: syn::token::Paren(group.group_token.span),
+            expr: group.expr.clone(),
+        });
+    }
+}
+
+/// An operand of an operator that binds tighter than what the fragment may consist of
+fn operand(expr: &mut syn::Expr, called: bool) {
+    let keeps_together = match expr {
+        syn::Expr::Group(group) => match group.expr.as_ref() {
+            syn::Expr::Lit(_)
+            | syn::Expr::Path(_)
+            | syn::Expr::Paren(_)
+            | syn::Expr::Macro(_)
+            | syn::Expr::Block(_)
+            | syn::Expr::Array(_)
+            | syn::Expr::Tuple(_)
+            | syn::Expr::Repeat(_)
+            | syn::Expr::Call(_)
+            | syn::Expr::MethodCall(_)
+            | syn::Expr::Index(_)
+            | syn::Expr::Group(_) => true,
+            syn::Expr::Field(_) => !called,
+            _ => false,
+        },
+        _ => true,
+    };
+    if !keeps_together {
+        to_paren(expr);
+    }
+}
+
+fn struct_literal(expr: &mut syn::Expr) {
+    if matches!(expr, syn::Expr::Group(group) if matches!(group.expr.as_ref(), syn::Expr::Struct(_))) {
+        to_paren(expr);
+    }
+}
+
+/// `&$t` with `$t = dyn Fn() -> u8 + Send`: "ambiguous `+` in a type"
+fn pointee(ty: &mut syn::Type) {
+    let several_bounds = match ty {
+        syn::Type::Group(group) => match group.elem.as_ref() {
+            syn::Type::TraitObject(trait_object) => trait_object.bounds.len() > 1,
+            syn::Type::ImplTrait(impl_trait) => impl_trait.bounds.len() > 1,
+            _ => false,
+        },
+        _ => false,
+    };
+    if several_bounds {
+        if let syn::Type::Group(group) = ty {
+            *ty = syn::Type::Paren(syn::TypeParen {
+                paren_token: syn::token::Paren(group.group_token.span),
+                elem: group.elem.clone(),
+            });
+        }
+    }
+}
